@@ -59,6 +59,50 @@ func runEdge(c *edgeCase, size int64) (string, string) {
 		consumed += int64(m)
 		return bad, err
 	}
+	// set-up calls always have the room / the data they need: one that does not return is itself an observation
+	guarded := func(what string, f func() error) (string, string) {
+		ch := make(chan error, 1)
+		go func() { ch <- f() }()
+		select {
+		case err := <-ch:
+			if err != nil {
+				return "INFRA set-up " + what + ": " + err.Error(), "INFRA"
+			}
+			return "", ""
+		case <-time.After(3 * time.Second):
+			p, q := bf.VerifCursors()
+			return fmt.Sprintf("ring of %d bytes, cursors (%d,%d): BLOCKED: a %s for which there is enough room/data does not return within 3 s", size, p, q, what), "C15"
+		}
+	}
+	plainWrite, plainRead := write, read
+	var setupD, setupT string
+	write = func(n int) error {
+		if setupD != "" {
+			return fmt.Errorf("abandoned")
+		}
+		d, t := guarded(fmt.Sprintf("Write of %d bytes", n), func() error { return plainWrite(n) })
+		if d != "" {
+			setupD, setupT = d, t
+			return fmt.Errorf("blocked")
+		}
+		return nil
+	}
+	read = func(n int) (string, error) {
+		if setupD != "" {
+			return "", fmt.Errorf("abandoned")
+		}
+		bad := ""
+		d, t := guarded(fmt.Sprintf("ReadPeek/ReadCommit of %d bytes", n), func() error {
+			var err error
+			bad, err = plainRead(n)
+			return err
+		})
+		if d != "" {
+			setupD, setupT = d, t
+			return "", fmt.Errorf("blocked")
+		}
+		return bad, nil
+	}
 	// consumer cursor = c: write and read c bytes in blocks
 	for consumed < c.C {
 		n := int(c.C - consumed)
@@ -66,10 +110,19 @@ func runEdge(c *edgeCase, size int64) (string, string) {
 			n = 4096
 		}
 		if err := write(n); err != nil {
+			if setupD != "" {
+				return setupD, setupT
+			}
 			return "INFRA set-up write: " + err.Error(), "INFRA"
 		}
 		if bad, err := read(n); err != nil || bad != "" {
-			return fmt.Sprintf("INFRA set-up read: %v %s", err, bad), "INFRA"
+			if setupD != "" {
+				return setupD, setupT
+			}
+			if bad != "" {
+				return fmt.Sprintf("ring of %d bytes: %s", size, bad), "C14"
+			}
+			return fmt.Sprintf("INFRA set-up read: %v", err), "INFRA"
 		}
 	}
 	for int(produced-consumed) < c.Used {
@@ -78,9 +131,13 @@ func runEdge(c *edgeCase, size int64) (string, string) {
 			n = 4096
 		}
 		if err := write(n); err != nil {
+			if setupD != "" {
+				return setupD, setupT
+			}
 			return "INFRA set-up fill: " + err.Error(), "INFRA"
 		}
 	}
+	write, read = plainWrite, plainRead // the call under test and what follows are timed by the code below
 	if p, q := bf.VerifCursors(); p != produced || q != consumed || q != c.C {
 		return fmt.Sprintf("INFRA set-up cursors (%d,%d), wanted (%d,%d)", p, q, produced, c.C), "INFRA"
 	}
@@ -127,14 +184,22 @@ func runEdge(c *edgeCase, size int64) (string, string) {
 		if atomic.LoadInt32(&edgeParked) == 0 {
 			return fmt.Sprintf("INFRA %s: %s neither returned nor reached its wait", where, what), "INFRA"
 		}
-		// the other side supplies exactly what is missing
+		// the other side supplies exactly what is missing (it has the data / the room for that)
 		if c.Side == "P" {
-			if bad, err := read(c.Missing); err != nil || bad != "" {
-				return fmt.Sprintf("%s: consumer reading %d byte(s) while a producer waits: %v %s", where, c.Missing, err, bad), "C14"
+			bad := ""
+			if d, t := guarded(fmt.Sprintf("ReadPeek/ReadCommit of %d byte(s) while a producer waits", c.Missing), func() error {
+				var err error
+				bad, err = read(c.Missing)
+				return err
+			}); d != "" {
+				return d, t
+			}
+			if bad != "" {
+				return fmt.Sprintf("%s: consumer reading %d byte(s) while a producer waits: %s", where, c.Missing, bad), "C14"
 			}
 		} else {
-			if err := write(c.Missing); err != nil {
-				return fmt.Sprintf("%s: producer writing %d byte(s) while a consumer waits: %v", where, c.Missing, err), "C14"
+			if d, t := guarded(fmt.Sprintf("Write of %d byte(s) while a consumer waits", c.Missing), func() error { return write(c.Missing) }); d != "" {
+				return d, t
 			}
 		}
 	}
@@ -162,7 +227,19 @@ func runEdge(c *edgeCase, size int64) (string, string) {
 		if n > 4096 {
 			n = 4096
 		}
-		bad, err := read(n)
+		before := consumed
+		bad := ""
+		var err error
+		if d, t := guarded(fmt.Sprintf("ReadPeek/ReadCommit of %d bytes that are in the ring", n), func() error {
+			var e error
+			bad, e = read(n)
+			return e
+		}); d != "" {
+			return d, t
+		}
+		if consumed == before && bad == "" {
+			return fmt.Sprintf("%s: after the %s, ReadPeek(%d) hands out nothing although %d bytes are in the ring", where, what, n, produced-consumed), "C14"
+		}
 		if err != nil {
 			return fmt.Sprintf("%s: draining after the %s: %v", where, what, err), "C14"
 		}
